@@ -5,6 +5,19 @@ from harness.common.wire import enc_opt_int, exc_enum
 from harness.common.watchdog import time_limit, Timeout
 
 ID = "C04"
+MANIFEST = {
+    "text": "Lean 4 theorems (Props/C04.lean): the loop body, tap table and seed expressions translated from devices.py on every "
+            "run are the documented LFSR; linear recurrence with the seed bits as virtual predecessors; minimal period exactly "
+            "2^n-1 from every non-zero state for all seven orders (kernel-checked GF(2) matrix certificate + primality of every "
+            "Mersenne factor, so all 2^31-1 states of PRBS31 are covered without enumeration); orbit = all non-zero states; "
+            "2^(n-1) ones per period; resume law for any split; seed normalisation and validation tables.  Tie: translator + "
+            "exact differential run of the compiled model against PRBS() incl. resumed calls and full cycles.",
+    "note": "Trusted: Lean kernel, translator tools/extractors/prbs.py (taps dict, 3 loop-body expressions, seed expressions), harness; "
+            "Python int bit ops = Lean Nat bit ops; the `len` non-int TypeError branch is oracle-only. "
+            "Axioms: propext, Classical.choice, Quot.sound.",
+    "technique": "Lean 4 proof (kernel-evaluated GF(2) certificate + induction) over a model regenerated from source; differential correspondence run",
+    "design": "§5 C04",
+}
 GEN = ["Prbs"]
 RULE = ("cases = (order, len, seed, split of len into resumed calls) over all 7 orders, boundary seeds "
         "{None,0,1,2^n,-1,-2^n,2^n-1,64-bit random}, lengths {1..3n, 2^n-1 for small n, random}; "
